@@ -133,6 +133,6 @@ func RoundTrip(r *rec.Recorder, first []byte, b *Built) {
 	r.Emit("rt", "what", "rerender", "eq", werr == nil && pan == "", "text", clipErr(werr, pan))
 	if werr == nil && pan == "" {
 		r.Emit("render", "id", 2, "second", true)
-		Analyse(r, out2.Bytes(), b)
+		Analyse(r, out2.Bytes(), b, "", "rt", 2)
 	}
 }
